@@ -187,6 +187,11 @@ def mutants(doc):
                            f"{a}: value {bad} vs declared {decl}" + (" (with host firewall)" if with_fw else ""), m)
     # ---- subnet firewall
     for k, v in doc["firewall"].items():
+        a, b = eval(k)
+        alt = f"({a},{b})" if k != f"({a},{b})" else f"({a},  {b})"
+        other = [x for x in doc["services"] if x not in v][:1] or []
+        m = mk(); m["firewall"][alt] = list(other)          # the same rule a second time, under another spelling
+        yield ("firewall_rule_duplicated", f"{k} and {alt}", m)
         m = mk(); del m["firewall"][k]
         yield ("firewall_rule_missing", k, m)
         m = mk(); m["firewall"][k] = doc["services"][0]
